@@ -474,3 +474,64 @@ def membership_atom(e, coll_pred):
     if isinstance(e, ast.Compare) and len(e.ops) == 1 and isinstance(e.ops[0], (ast.In, ast.NotIn)) and coll_pred(ast.unparse(e.comparators[0])):
         return "in:" + ast.unparse(e.comparators[0]), isinstance(e.ops[0], ast.In)
     return None
+
+
+def may_return_none(ctx, g):
+    """[(how, line)] for the ways function g can hand back None although it also returns
+    values: an explicit `return None` / bare `return`, or falling off the end."""
+    has_val = any(isinstance(r, ast.Return) and r.value is not None and not (isinstance(r.value, ast.Constant) and r.value.value is None) for r in ctx.m.walk_own(g.node))
+    if not has_val:
+        return []
+    out = []
+    for r in ctx.m.walk_own(g.node):
+        if isinstance(r, ast.Return) and (r.value is None or isinstance(r.value, ast.Constant) and r.value.value is None):
+            out.append(("return None", r))
+    cfg = ctx.cfg(g)
+    for p, lab in cfg.exit.preds:
+        n = cfg.nodes[p]
+        if not (n.kind == "stmt" and isinstance(n.ast, (ast.Return, ast.Raise))):
+            out.append(("falls off the end", n.ast if n.ast is not None else g.node))
+    return out
+
+
+def immediate_result_uses(ctx, f):
+    """[(node, call, how)] where the result of a call to a repository function is taken
+    apart on the spot: unpacked into a tuple of targets, subscripted, or an attribute read."""
+    out = []
+    for n in ctx.m.walk_own(f.node):
+        call = how = None
+        if isinstance(n, ast.Assign) and isinstance(n.targets[0], (ast.Tuple, ast.List)) and isinstance(n.value, ast.Call):
+            call, how = n.value, "unpacked"
+        elif isinstance(n, (ast.Subscript, ast.Attribute)) and isinstance(n.value, ast.Call) and isinstance(n.ctx, ast.Load):
+            call, how = n.value, "subscripted" if isinstance(n, ast.Subscript) else f"read for .{n.attr}"
+        elif isinstance(n, ast.For) and isinstance(n.iter, ast.Call):
+            call, how = n.iter, "iterated"
+        if call is None:
+            continue
+        k, tg = ctx.r.resolve_call(f, call)
+        if k in ("external", "unknown", "ctor") or not tg:
+            continue
+        out.append((n, call, how, tg))
+    return out
+
+
+def check_immediate_results(ctx, R, rule, funcs):
+    n = 0
+    for f in funcs:
+        for node, call, how, tg in immediate_result_uses(ctx, f):
+            n += 1
+            k = key(f, ctx.m.enclosing_stmt(node))[:100]
+            bad = None
+            for t in sorted(tg):
+                mn = may_return_none(ctx, ctx.m.funcs[t])
+                if mn:
+                    bad = (ctx.m.funcs[t], mn[0])
+                    break
+            if bad is None:
+                R.ok(rule, f.short, k, loc(f, node), f"result {how}: no callee returns None")
+            elif absorbs(ctx, node, "TypeError") and absorbs(ctx, node, "AttributeError"):
+                R.ok(rule, f.short, k, loc(f, node), "TypeError/AttributeError absorbed")
+            else:
+                g, (why, at) = bad
+                R.violation(rule, f.short, k, loc(f, node), f"the result of {g.short} is {how} here, but {g.short} can hand back None ({why}, line {getattr(at, 'lineno', '?')}): TypeError/AttributeError for the inputs that take that path")
+    return n
